@@ -304,6 +304,20 @@ def gen_spec(rng, case: int) -> dict:
             for t in tensors:
                 if t["kind"] == "ext_dest":
                     t["via"] = rng.choice(["direct", "hop", "target", "target"])
+    # a fixed stratum (not left to chance, so that every seed reaches it): single-file saves over a chain
+    # of links in which a written destination-backed tensor reads the final file by its own name
+    if mode == "symlink" and not sharded and family == "short" and (case // 7) % 3 == 0:
+        spec["link"] = "chain2" if (case // 21) % 2 == 0 else "chain3"
+        dest_backed = [t for t in tensors if t["kind"] == "ext_dest"]
+        if not dest_backed:
+            t = tensors[0]
+            t["kind"] = "ext_dest"
+            t["name"] = t["name"].split("_")[0] + "_ext_dest"
+            dest_backed = [t]
+        big = max(dest_backed, key=_nbytes)
+        big["via"] = "target"
+        if _nbytes(big) <= spec["threshold"]:
+            spec["threshold"] = 0
     return spec
 
 
